@@ -66,6 +66,9 @@ type Target struct {
 	SleepIf   string `json:"sleep_if,omitempty"` // marker: sleep 20 s when present
 	Omit      string `json:"omit,omitempty"`
 	OmitIf    string `json:"omit_if,omitempty"` // marker: do not write outputs when present
+	// Dangle: an omitted output is not simply absent: a symlink that points nowhere sits at its
+	// path (the declared output still does not exist)
+	Dangle    bool   `json:"dangle,omitempty"`
 	Touch     string `json:"touch,omitempty"`   // marker created by the command (establishes a checked condition)
 	Untouch   string `json:"untouch,omitempty"` // marker removed by the command while UntouchIf is present (the command itself breaks a checked condition)
 	UntouchIf string `json:"untouch_if,omitempty"`
@@ -227,6 +230,9 @@ func (t *Target) Command() string {
 	}
 	if t.OmitIf != "" {
 		sb.WriteString(" --omitif " + shq(t.OmitIf))
+	}
+	if t.Dangle {
+		sb.WriteString(" --dangle")
 	}
 	if t.Touch != "" {
 		sb.WriteString(" --touch " + shq(t.Touch))
